@@ -22,6 +22,17 @@ else
   out=$(VERIF_PYTHONPATH_PREPEND="$ov" VERIF_REPO="$ov" ./check "$pid" --tier "$tier" 2>&1); rc=$?
 fi
 echo "$out" | tail -8
+keys=$(echo "$out" | grep -E "^  \[[^]]+\] " | sed -E 's/^  \[[^]]+\] ([^ ]+): .*/\1/' | sort -u | head -6 | tr '\n' ' ')
+verdict="MISSED"
+if [ $rc -eq 1 ] && echo "$out" | grep -q "^VIOLATION property=$pid"; then verdict="DETECTED"; elif [ $rc -eq 3 ]; then verdict="HARNESS-ERROR"; fi
+python3 - "$d/result.json" "$tier" "$verdict" "$keys" <<'PY'
+import json,sys,os
+p,tier,verdict,keys=sys.argv[1:5]
+r=json.load(open(p)) if os.path.exists(p) else {}
+r[tier]=verdict
+if keys.split(): r["keys"]=sorted(set(r.get("keys",[]))|set(keys.split()))
+json.dump(r,open(p,"w"),indent=1)
+PY
 if [ $rc -eq 1 ] && echo "$out" | grep -q "^VIOLATION property=$pid"; then echo "RESULT $name: DETECTED (exit 1)";
 elif [ $rc -eq 3 ]; then echo "RESULT $name: HARNESS-ERROR (exit 3)";
 else echo "RESULT $name: MISSED (exit $rc)"; fi
